@@ -128,53 +128,65 @@ def readBody (bs : BodyStream) : Nat × Bool × Bool × BodyStream :=
     if c > Gen.c_maxDataFrameSize then (Gen.c_maxDataFrameSize, false, false, { bs with chunks := (c - Gen.c_maxDataFrameSize) :: cs })
     else (c, cs.isEmpty && bs.tail == 'E', false, { bs with chunks := cs })
 
+/-- the refill part of one round of `sendData`: the new state, the stream as it now is, and whether
+the loop is left (`break` / read error) -/
+def refill (r : R) (uid : Nat) (st : Strm) : R × Strm × Bool :=
+  if st.pendLen == 0 then
+    match st.stream with
+    | none => (r, st, true)                 -- break → finished
+    | some bs =>
+      let rd := readBody bs
+      let n := rd.1
+      let eof := rd.2.1
+      let err := rd.2.2.1
+      let bs' := rd.2.2.2
+      if err || (n == 0 && !eof) then
+        -- read error: close the body stream, RST_STREAM(INTERNAL_ERROR), finished
+        let st' := { st with stream := none }
+        (writeReset (r.updStrm uid fun _ => st') st.id Gen.c_InternalError, st', true)
+      else
+        let st' := { st with stream := some bs',
+                             pendOff := if n > 0 then st.bodyRead else st.pendOff,
+                             pendLen := if n > 0 then n else st.pendLen,
+                             bodyRead := st.bodyRead + n,
+                             pendingEnd := st.pendingEnd || eof }
+        let st' := if st'.bodySize ≥ 0 && (st'.bodyRead : Int) ≥ st'.bodySize then { st' with pendingEnd := true } else st'
+        if st'.pendLen == 0 then
+          -- nothing read: if the reader just ended, END_STREAM goes out on an empty DATA frame; break
+          let r := r.updStrm uid fun _ => st'
+          ((if st'.pendingEnd then r.emit (.data st.id true 0 {}) else r), st', true)
+        else (r.updStrm uid fun _ => st', st', false)
+  else (r, st, false)
+
+/-- `closeBodyStream` -/
+def closeBody (r : R) (uid : Nat) : R := r.updStrm uid fun s => { s with stream := none }
+
+/-- one DATA frame of `sendData`: `step` octets of the pending data of `st` -/
+def sendFrame (r : R) (uid : Nat) (st : Strm) (step : Nat) : R × Bool :=
+  let rem := st.pendLen - step
+  let fin := st.pendingEnd && rem == 0
+  let r := r.emit (.data st.id fin step (st.src.digest st.pendOff step))
+  let r := r.updStrm uid fun s => { s with pendOff := s.pendOff + step, pendLen := rem, window := s.window - step }
+  ({ r with s := { r.s with clientWindow := r.s.clientWindow - step } }, fin)
+
 /-- `sendData`: returns (r, finished). `fuel` bounds the loop (each round sends ≥ 1 octet or stops). -/
 def sendDataFuel : Nat → R → Nat → R × Bool
   | 0, r, _ => (r, false)
   | fuel + 1, r, uid =>
     match r.getStrm uid with
     | none => (r, true)
-    | some st =>
-      -- refill
-      let (r, st, stop) : R × Strm × Option Bool :=
-        if st.pendLen == 0 then
-          match st.stream with
-          | none => (r, st, some true)                 -- break → finished
-          | some bs =>
-            let (n, eof, err, bs') := readBody bs
-            if err || (n == 0 && !eof) then
-              -- read error: close the body stream, RST_STREAM(INTERNAL_ERROR), finished
-              let st' := { st with stream := none }
-              ((writeReset (r.updStrm uid fun _ => st') st.id Gen.c_InternalError), st', some true)
-            else
-              let st' := { st with stream := some bs',
-                                   pendOff := if n > 0 then st.bodyRead else st.pendOff,
-                                   pendLen := if n > 0 then n else st.pendLen,
-                                   bodyRead := st.bodyRead + n,
-                                   pendingEnd := st.pendingEnd || eof }
-              let st' := if st'.bodySize ≥ 0 && (st'.bodyRead : Int) ≥ st'.bodySize then { st' with pendingEnd := true } else st'
-              if st'.pendLen == 0 then
-                -- nothing read: if the reader just ended, END_STREAM goes out on an empty DATA frame; break
-                let r := r.updStrm uid fun _ => st'
-                ((if st'.pendingEnd then r.emit (.data st.id true 0 {}) else r), st', some true)
-              else (r.updStrm uid fun _ => st', st', none)
-        else (r, st, none)
-      match stop with
-      | some _ =>
-        -- after the loop: closeBodyStream
-        ((r.updStrm uid fun s => { s with stream := none }), true)
-      | none =>
+    | some st0 =>
+      let x := refill r uid st0
+      let r := x.1
+      let st := x.2.1
+      if x.2.2 then (closeBody r uid, true)            -- after the loop: closeBodyStream
+      else
         let avail := if r.s.clientWindow < st.window then r.s.clientWindow else st.window
         if avail ≤ 0 then (r, false)
         else
-          let step := min (min Gen.c_maxDataFrameSize avail.toNat) st.pendLen
-          let rem := st.pendLen - step
-          let fin := st.pendingEnd && rem == 0
-          let r := r.emit (.data st.id fin step (st.src.digest st.pendOff step))
-          let r := r.updStrm uid fun s => { s with pendOff := s.pendOff + step, pendLen := rem, window := s.window - step }
-          let r := { r with s := { r.s with clientWindow := r.s.clientWindow - step } }
-          if fin then ((r.updStrm uid fun s => { s with stream := none }), true)   -- END_STREAM sent: done
-          else sendDataFuel fuel r uid
+          let y := sendFrame r uid st (min (min Gen.c_maxDataFrameSize avail.toNat) st.pendLen)
+          if y.2 then (closeBody y.1 uid, true)           -- END_STREAM sent: done
+          else sendDataFuel fuel y.1 uid
 
 def sendData (r : R) (uid : Nat) : R × Bool :=
   match r.getStrm uid with
@@ -185,19 +197,23 @@ def sendData (r : R) (uid : Nat) : R × Bool :=
 
 def hasMoreToSend (st : Strm) : Bool := st.pendLen > 0 || st.stream.isSome
 
+/-- one stream of `flushStreams`: resume it if it owes data; remember it if it finished -/
+def flushOne (acc : R × List Nat) (uid : Nat) : R × List Nat :=
+  match acc.1.getStrm uid with
+  | none => acc
+  | some st =>
+    if st.responded && !st.handlerRunning && hasMoreToSend st then
+      let x := sendData acc.1 uid
+      (x.1, if x.2 then acc.2 ++ [uid] else acc.2)
+    else acc
+
+def closeDone (r : R) (uid : Nat) : R :=
+  closeStream (r.updStrm uid fun s => { s with state := .closed }) uid
+
 /-- `flushStreams` -/
 def flushStreams (r : R) : R :=
-  let uids := r.s.strms.map (·.uid)
-  let (r, done) := uids.foldl (fun (acc : R × List Nat) uid =>
-    let (r, done) := acc
-    match r.getStrm uid with
-    | none => (r, done)
-    | some st =>
-      if st.responded && !st.handlerRunning && hasMoreToSend st then
-        let (r', fin) := sendData r uid
-        (r', if fin then done ++ [uid] else done)
-      else (r, done)) (r, [])
-  done.foldl (fun r uid => closeStream (r.updStrm uid fun s => { s with state := .closed }) uid) r
+  let acc := (r.s.strms.map (·.uid)).foldl flushOne (r, [])
+  acc.2.foldl closeDone acc.1
 
 /-- handler results: what the scripted handler put into the response -/
 structure Resp where
@@ -220,16 +236,21 @@ def decodeAll : Nat → Hpack.DecState → Bool → Nat → Bytes → List Hpack
     | .ok st' none rest => decodeAll fuel st' bs fp rest acc
     | _ => none
 
+/-- the encoder's part of `fasthttpResponseHeaders`: `:status` stored, the rest not -/
+def encodeFields (enc : Hpack.EncState) (fields : List ((Bytes × Bytes) × Bool)) : Hpack.EncState × Bytes :=
+  fields.foldl (fun (acc : Hpack.EncState × Bytes) (fs : (Bytes × Bytes) × Bool) =>
+    let x := Hpack.Enc.append acc.1 ⟨fs.1.1, fs.1.2, false⟩ fs.2
+    (x.1, acc.2 ++ x.2)) (enc, [])
+
+/-- the fields of a response in the order they are encoded -/
+def responseFields (resp : Resp) : List ((Bytes × Bytes) × Bool) :=
+  ((Gen.s_StringStatus, statusBytes resp.status), true) :: resp.view.map fun (k, v) => ((toLowerGo k, v), false)
+
 /-- `fasthttpResponseHeaders` + the HEADERS frame of `finishRequest` -/
 def responseHeaders (r : R) (st : Strm) (resp : Resp) (hasBody : Bool) : R :=
-  let fields : List (Bytes × Bytes) :=
-    (Gen.s_StringStatus, statusBytes resp.status) :: resp.view.map fun (k, v) => (toLowerGo k, v)
-  let stores : List Bool := true :: resp.view.map fun _ => false
-  let (enc, block) := (fields.zip stores).foldl (fun (acc : Hpack.EncState × Bytes) (fs : (Bytes × Bytes) × Bool) =>
-    let (e, b) := acc
-    let (e', w) := Hpack.Enc.append e ⟨fs.1.1, fs.1.2, false⟩ fs.2
-    (e', b ++ w)) (r.s.enc, [])
-  let r := { r with s := { r.s with enc := enc } }
+  let x := encodeFields r.s.enc (responseFields resp)
+  let block := x.2
+  let r : R := { r with s := { r.s with enc := x.1 } }
   -- what the peer's reference decoder makes of the block
   match decodeAll (block.length + 1) r.s.peerDec true 0 block [] with
   | some (dec, fs) =>
@@ -457,93 +478,122 @@ def closeIdleBelow : Nat → R → Nat → R
         closeIdleBelow fuel r id
       else r
 
+def closeIfDone (r : R) : R := if canCloseAfterGoAway r.s then stopLoop r else r
+
+/-- the `strm == nil` branch of the stream loop: a frame about a stream that is not in the table.
+Returns the new state and the uid of the stream just created, if one was. -/
+def unknownStream (r : R) (fr : Frame) (wasClosing : Bool) : R × Option Nat :=
+  if r.s.resetByUs.contains fr.stream then
+    -- in flight when the peer had not yet seen our RST_STREAM: ignored, DATA still charged to the connection
+    ((if fr.typ == Gen.c_FrameData then consumeConnWindow r fr.length else r), none)
+  else if fr.typ == Gen.c_FrameResetStream then
+    ((if fr.stream > r.s.lastID then closeIfDone (writeGoAway r fr.stream Gen.c_ProtocolError "RST_STREAM on idle stream") else r), none)
+  else if r.s.ring.contains fr.stream then
+    ((if fr.typ == Gen.c_FramePriority || fr.typ == Gen.c_FrameWindowUpdate then r
+      else closeIfDone (writeGoAway r fr.stream Gen.c_StreamClosedError "closed-stream")), none)
+  else if fr.typ != Gen.c_FrameHeaders then
+    -- only HEADERS opens a stream
+    if fr.typ == Gen.c_FramePriority then
+      if (match fr.body with | .priority dep _ => dep == fr.stream | _ => false) then
+        (stopLoop (writeGoAway r fr.stream Gen.c_ProtocolError "stream that depends on itself"), none)
+      else (r, none)
+    else if fr.stream > r.s.lastID then
+      (stopLoop (writeGoAway r fr.stream Gen.c_ProtocolError "wrong frame on idle stream"), none)
+    else if fr.typ != Gen.c_FrameWindowUpdate then
+      (closeIfDone (writeGoAway r fr.stream Gen.c_StreamClosedError "closed-stream"), none)
+    else (r, none)
+  else if r.s.openStreams ≥ (r.s.cfg.maxStreams : Int) || wasClosing then
+    (writeReset r fr.stream Gen.c_RefusedStreamError, none)
+  else if fr.stream < r.s.lastID then
+    (closeIfDone (writeGoAway r fr.stream Gen.c_ProtocolError "lower-id"), none)
+  else
+    let st : Strm := { uid := r.s.nextUid, id := fr.stream, window := r.s.curInitWin, origType := fr.typ }
+    let s := { r.s with strms := r.s.strms ++ [st], nextUid := r.s.nextUid + 1,
+                        openStreams := r.s.openStreams + 1, lastID := fr.stream }
+    ({ r with s := s }, some st.uid)
+
+/-- HEADERS: the previous header block must be finished; idle streams with lower ids are closed.
+Returns whether the frame is handled further. -/
+def headersPrelude (r : R) (fr : Frame) : R × Bool :=
+  if fr.typ == Gen.c_FrameHeaders then
+    match getPrevious r.s.strms with
+    | some n =>
+      if !n.headersFinished then
+        (writeError r n.uid (.goAway Gen.c_ProtocolError "previous stream headers not ended"), false)
+      else (closeIdleBelow (r.s.strms.length + 1) r fr.stream, true)
+    | none => (closeIdleBelow (r.s.strms.length + 1) r fr.stream, true)
+  else (r, true)
+
+/-- what the loop does with the error `handleFrame` returned: the frame to send, the stream closed,
+and whether the loop is left (`break loop`) -/
+def onFrameError (r : R) (uid : Nat) (e : Option SErr) : R × Bool :=
+  match e with
+  | none => (r, false)
+  | some e =>
+    let r := (writeError r uid e).updStrm uid fun s => { s with state := .closed }
+    match e with
+    | .goAway code _ => (r, code != Gen.c_NoError)
+    | .reset _ => (r, false)
+
+/-- `dispatchHandler`: the request as the handler will see it -/
+def dispatch (r : R) (uid : Nat) (st : Strm) : R :=
+  let flds := (match st.contentType with | some v => [(Gen.s_StringContentType, v)] | none => []) ++
+              (match st.userAgent with | some v => [(Gen.s_StringUserAgent, v)] | none => []) ++ st.fields
+  (r.updStrm uid fun s => { s with handlerRunning := true }).emit
+    (.dispatch st.id st.method st.uri st.host flds st.body)
+
+/-- after `handleState`: hand the request over, or go on sending the response -/
+def dispatchOrSend (r : R) (uid : Nat) (st : Strm) : R :=
+  if st.state == .halfClosed && st.headersFinished && !st.responded then
+    let r := r.updStrm uid fun s => { s with responded := true }
+    if st.hasCL && (st.recvBody : Int) != st.contentLength then
+      (writeReset r st.id Gen.c_ProtocolError).updStrm uid fun s => { s with state := .closed }
+    else dispatch r uid st
+  else if st.responded && !st.handlerRunning && hasMoreToSend st then
+    let x := sendData r uid
+    if x.2 then x.1.updStrm uid fun s => { s with state := .closed } else x.1
+  else r
+
+def closeIfClosed (r : R) (uid : Nat) : R :=
+  match r.getStrm uid with
+  | some st => if st.state == .closed then closeStream r uid else r
+  | none => r
+
+/-- the rest of the loop body once the stream is known -/
+def knownStream (r : R) (uid : Nat) (fr : Frame) (wasClosing : Bool) : R :=
+  let p := headersPrelude r fr
+  if !p.2 then p.1 else
+  let h := handleFrame p.1 uid fr
+  let e := onFrameError h.1 uid h.2
+  if e.2 then stopLoop e.1 else
+  let r := e.1.updStrm uid (handleState fr)
+  match r.getStrm uid with
+  | none => r
+  | some st =>
+    let r := closeIfClosed (dispatchOrSend r uid st) uid
+    if wasClosing && canCloseAfterGoAway r.s then stopLoop r else r
+
 /-- the `case fr := <-sc.reader` arm of `handleStreams` for a frame with a stream id -/
 def slStreamFrame (r : R) (fr : Frame) : R :=
   let wasClosing := r.s.closing
   let found : Option Strm := if fr.stream ≤ r.s.lastID then r.s.strms.find? (·.id == fr.stream) else none
-  -- lookup / creation
-  let (r, uidOpt, cont) : R × Option Nat × Bool :=
-    match found with
-    | some st => (r, some st.uid, true)
-    | none =>
-      let closeIfDone (r : R) : R := if canCloseAfterGoAway r.s then stopLoop r else r
-      if r.s.resetByUs.contains fr.stream then
-        -- in flight when the peer had not yet seen our RST_STREAM: ignored, DATA still charged to the connection
-        ((if fr.typ == Gen.c_FrameData then consumeConnWindow r fr.length else r), none, false)
-      else if fr.typ == Gen.c_FrameResetStream then
-        ((if fr.stream > r.s.lastID then closeIfDone (writeGoAway r fr.stream Gen.c_ProtocolError "RST_STREAM on idle stream") else r), none, false)
-      else if r.s.ring.contains fr.stream then
-        ((if fr.typ == Gen.c_FramePriority || fr.typ == Gen.c_FrameWindowUpdate then r
-          else closeIfDone (writeGoAway r fr.stream Gen.c_StreamClosedError "closed-stream")), none, false)
-      else if fr.typ != Gen.c_FrameHeaders then
-        -- only HEADERS opens a stream
-        if fr.typ == Gen.c_FramePriority then
-          if (match fr.body with | .priority dep _ => dep == fr.stream | _ => false) then
-            (stopLoop (writeGoAway r fr.stream Gen.c_ProtocolError "stream that depends on itself"), none, false)
-          else (r, none, false)
-        else if fr.stream > r.s.lastID then
-          (stopLoop (writeGoAway r fr.stream Gen.c_ProtocolError "wrong frame on idle stream"), none, false)
-        else if fr.typ != Gen.c_FrameWindowUpdate then
-          (closeIfDone (writeGoAway r fr.stream Gen.c_StreamClosedError "closed-stream"), none, false)
-        else (r, none, false)
-      else if r.s.openStreams ≥ (r.s.cfg.maxStreams : Int) || wasClosing then
-        (writeReset r fr.stream Gen.c_RefusedStreamError, none, false)
-      else if fr.stream < r.s.lastID then
-        (closeIfDone (writeGoAway r fr.stream Gen.c_ProtocolError "lower-id"), none, false)
-      else
-        let st : Strm := { uid := r.s.nextUid, id := fr.stream, window := r.s.curInitWin, origType := fr.typ }
-        let s := { r.s with strms := r.s.strms ++ [st], nextUid := r.s.nextUid + 1 }
-        let s := if fr.typ == Gen.c_FrameHeaders then { s with openStreams := s.openStreams + 1, lastID := fr.stream } else s
-        ({ r with s := s }, some st.uid, true)
-  if !cont then r else
-  match uidOpt with
-  | none => r
-  | some uid =>
-    -- HEADERS: previous block must be finished; implicit close of idle streams
-    let (r, cont) : R × Bool :=
-      if fr.typ == Gen.c_FrameHeaders then
-        match getPrevious r.s.strms with
-        | some n =>
-          if !n.headersFinished then
-            (writeError r n.uid (.goAway Gen.c_ProtocolError "previous stream headers not ended"), false)
-          else (closeIdleBelow (r.s.strms.length + 1) r fr.stream, true)
-        | none => (closeIdleBelow (r.s.strms.length + 1) r fr.stream, true)
-      else (r, true)
-    if !cont then r else
-    let (r, e) := handleFrame r uid fr
-    let (r, brk) : R × Bool :=
-      match e with
-      | none => (r, false)
-      | some e =>
-        let r := writeError r uid e
-        let r := r.updStrm uid fun s => { s with state := .closed }
-        match e with
-        | .goAway code _ => (r, code != Gen.c_NoError)
-        | .reset _ => (r, false)
-    if brk then stopLoop r else
-    let r := r.updStrm uid (handleState fr)
-    match r.getStrm uid with
-    | none => r
-    | some st =>
-      let r :=
-        if st.state == .halfClosed && st.headersFinished && !st.responded then
-          let r := r.updStrm uid fun s => { s with responded := true }
-          if st.hasCL && (st.recvBody : Int) != st.contentLength then
-            (writeReset r st.id Gen.c_ProtocolError).updStrm uid fun s => { s with state := .closed }
-          else
-            -- dispatchHandler
-            let flds := (match st.contentType with | some v => [(Gen.s_StringContentType, v)] | none => []) ++
-                        (match st.userAgent with | some v => [(Gen.s_StringUserAgent, v)] | none => []) ++ st.fields
-            (r.updStrm uid fun s => { s with handlerRunning := true }).emit
-              (.dispatch st.id st.method st.uri st.host flds st.body)
-        else if st.responded && !st.handlerRunning && hasMoreToSend st then
-          let (r, fin) := sendData r uid
-          if fin then r.updStrm uid fun s => { s with state := .closed } else r
-        else r
-      let r := match r.getStrm uid with
-        | some st => if st.state == .closed then closeStream r uid else r
-        | none => r
-      if wasClosing && canCloseAfterGoAway r.s then stopLoop r else r
+  match found with
+  | some st => knownStream r st.uid fr wasClosing
+  | none =>
+    let u := unknownStream r fr wasClosing
+    match u.2 with
+    | none => u.1
+    | some uid => knownStream u.1 uid fr wasClosing
+
+/-- the SETTINGS_INITIAL_WINDOW_SIZE delta, stream by stream, stopping at the first overflow -/
+def applyDelta (delta : Int) : List Strm → List Strm × Bool
+  | [] => ([], false)
+  | s :: rest =>
+    let w := s.window + delta
+    if w > 2 ^ 31 - 1 then ({ s with window := w } :: rest, true)
+    else
+      let x := applyDelta delta rest
+      ({ s with window := w } :: x.1, x.2)
 
 /-- a frame taken off `sc.reader` by the stream loop -/
 def slFrame (r : R) (fr : Frame) : R :=
@@ -554,15 +604,9 @@ def slFrame (r : R) (fr : Frame) : R :=
     | .settings st =>
       if st.hasWindowSize then
         let delta : Int := (st.windowSize : Int) - r.s.curInitWin
-        let r := { r with s := { r.s with curInitWin := st.windowSize } }
-        -- the loop adds the delta stream by stream and stops at the first overflow
-        let (strms, over) := r.s.strms.foldl (fun (acc : List Strm × Bool) s =>
-          if acc.2 then (acc.1 ++ [s], true)
-          else
-            let w := s.window + delta
-            (acc.1 ++ [{ s with window := w }], w > 2 ^ 31 - 1)) ([], false)
-        let r := { r with s := { r.s with strms := strms } }
-        if over then stopLoop (writeGoAway r 0 Gen.c_FlowControlError "stream-win-max")
+        let x := applyDelta delta r.s.strms
+        let r := { r with s := { r.s with curInitWin := st.windowSize, strms := x.1 } }
+        if x.2 then stopLoop (writeGoAway r 0 Gen.c_FlowControlError "stream-win-max")
         else flushStreams r
       else r
     | .windowUpdate inc =>
@@ -585,52 +629,57 @@ def slHandlerDone (r : R) (sid : Nat) (resp : Resp) : R :=
     | some st => releaseStream { r with s := { r.s with abandoned := r.s.abandoned.filter (·.uid != st.uid) } } st
     | none => r
   | some st =>
-    let r := r.updStrm st.uid fun s => { s with handlerRunning := false }
-    let (r, fin) := finishRequest r st.uid resp
-    let r := if fin then closeStream (r.updStrm st.uid fun s => { s with state := .closed }) st.uid else r
+    let x := finishRequest (r.updStrm st.uid fun s => { s with handlerRunning := false }) st.uid resp
+    let r := if x.2 then closeDone x.1 st.uid else x.1
     if r.s.closing && canCloseAfterGoAway r.s then stopLoop r else r
 
 /-! ## read loop -/
 
 def rlStop (r : R) : R := { r with s := { r.s with rlStopped := true } }
 
+/-- the CONTINUATION sequencing rules at the top of `readLoop`; `true` = connection error sent -/
+def contCheck (r : R) (fr : Frame) : R × Bool :=
+  if r.s.expectCont != 0 then
+    if fr.typ != Gen.c_FrameContinuation || fr.stream != r.s.expectCont then
+      (writeGoAway r 0 Gen.c_ProtocolError "want-cont", true)
+    else if Frame.hasFlag fr.flags Gen.c_FlagEndHeaders then ({ r with s := { r.s with expectCont := 0 } }, false)
+    else (r, false)
+  else if fr.typ == Gen.c_FrameContinuation then (writeGoAway r 0 Gen.c_ProtocolError "stray-cont", true)
+  else if fr.typ == Gen.c_FrameHeaders && !Frame.hasFlag fr.flags Gen.c_FlagEndHeaders then
+    ({ r with s := { r.s with expectCont := fr.stream } }, false)
+  else (r, false)
+
+/-- `handleSettings`: remember the peer's values, resize the encoder, acknowledge -/
+def handleSettings (r : R) (st : Frame.SettingsVal) : R :=
+  let announced := (st.pairs.filter fun p => p.1 == Gen.c_HeaderTableSize).getLast?
+  let pd := match announced with
+    | some (_, v) => { r.s.peerDec with limit := v }
+    | none => r.s.peerDec
+  let s := { r.s with peerFrameSize := st.frameSize, enc := r.s.enc.setMax st.tableSize, peerDec := pd }
+  ({ r with s := s } : R).emit .settingsAck
+
+/-- frames on stream 0 -/
+def rlConnFrame (r : R) (fr : Frame) : R :=
+  match fr.body with
+  | .settings st => if !st.ack then slFrame (handleSettings r st) fr else r
+  | .windowUpdate inc =>
+    if inc == 0 then rlStop (writeGoAway r 0 Gen.c_ProtocolError "window increment of 0") else slFrame r fr
+  | .ping ack b => if !ack then r.emit (.ping true b) else r
+  | .goAway _ _ _ => rlStop r
+  | _ => rlStop (writeGoAway r 0 Gen.c_ProtocolError "invalid frame")
+
 /-- one parsed frame in `readLoop` -/
 def rlFrame (r : R) (fr : Frame) : R :=
-  -- CONTINUATION sequencing
-  let (r, stop) : R × Bool :=
-    if r.s.expectCont != 0 then
-      if fr.typ != Gen.c_FrameContinuation || fr.stream != r.s.expectCont then
-        (writeGoAway r 0 Gen.c_ProtocolError "want-cont", true)
-      else if Frame.hasFlag fr.flags Gen.c_FlagEndHeaders then ({ r with s := { r.s with expectCont := 0 } }, false)
-      else (r, false)
-    else if fr.typ == Gen.c_FrameContinuation then (writeGoAway r 0 Gen.c_ProtocolError "stray-cont", true)
-    else if fr.typ == Gen.c_FrameHeaders && !Frame.hasFlag fr.flags Gen.c_FlagEndHeaders then
-      ({ r with s := { r.s with expectCont := fr.stream } }, false)
-    else (r, false)
-  if stop then rlStop r else
+  let c := contCheck r fr
+  if c.2 then rlStop c.1 else
+  let r := c.1
   if fr.stream != 0 then
     -- checkFrameWithStream
     if fr.stream % 2 == 0 then rlStop (writeGoAway r 0 Gen.c_ProtocolError "invalid stream id")
     else if fr.typ == Gen.c_FramePing then rlStop (writeGoAway r 0 Gen.c_ProtocolError "ping is carrying a stream id")
     else if fr.typ == Gen.c_FramePushPromise then rlStop (writeGoAway r 0 Gen.c_ProtocolError "clients can't send push_promise frames")
     else slFrame r fr
-  else
-    match fr.body with
-    | .settings st =>
-      if !st.ack then
-        -- handleSettings: copy, resize the encoder, acknowledge; then forward
-        let announced := (st.pairs.filter fun p => p.1 == Gen.c_HeaderTableSize).getLast?
-        let pd := match announced with
-          | some (_, v) => { r.s.peerDec with limit := v }
-          | none => r.s.peerDec
-        let s := { r.s with peerFrameSize := st.frameSize, enc := r.s.enc.setMax st.tableSize, peerDec := pd }
-        slFrame (({ r with s := s }).emit .settingsAck) fr
-      else r
-    | .windowUpdate inc =>
-      if inc == 0 then rlStop (writeGoAway r 0 Gen.c_ProtocolError "window increment of 0") else slFrame r fr
-    | .ping ack b => if !ack then r.emit (.ping true b) else r
-    | .goAway _ _ _ => rlStop r
-    | _ => rlStop (writeGoAway r 0 Gen.c_ProtocolError "invalid frame")
+  else rlConnFrame r fr
 
 /-- parse and handle whatever complete frames the buffer holds -/
 def rlDrain : Nat → R → R
